@@ -208,9 +208,11 @@ func (e *c19Env) read(ctx context.Context, nonce string) *c19Call {
 }
 
 // blockedDump returns the gopcua goroutines of this process.
-func blockedDump() string {
-	buf := make([]byte, 4<<20)
-	return repoGoroutinesPlain(string(buf[:runtime.Stack(buf, true)]), 5000)
+func blockedDump() string { return blockedDumpN(5000) }
+
+func blockedDumpN(max int) string {
+	buf := make([]byte, 8<<20)
+	return repoGoroutinesPlain(string(buf[:runtime.Stack(buf, true)]), max)
 }
 
 func c19One(c *fw.Ctx, cs c19Case) {
